@@ -20,6 +20,9 @@ pub enum EvKind {
     Cos(f64),
     /// g = sin(w t)
     Sin(f64),
+    /// g = sqrt((c - t) s) + 0.1: positive until t passes c (in the direction s = ±1), NaN afterwards — an event
+    /// function with a restricted domain that never has a root
+    SqrtUntil(f64, f64),
 }
 
 #[derive(Clone, Debug)]
@@ -55,6 +58,7 @@ impl EventSpec {
                 EvKind::Y0Y1 => y[0] * y[1],
                 EvKind::Cos(w) => (w * t).cos(),
                 EvKind::Sin(w) => (w * t).sin(),
+                EvKind::SqrtUntil(c, sg) => ((c - t) * sg).sqrt() + 0.1,
             }
     }
     /// Lipschitz bound of g along the trajectory in t, given a bound on |y'| and |y|.
@@ -65,6 +69,7 @@ impl EventSpec {
                 EvKind::Y(_, _) => dymax,
                 EvKind::Y0Y1 => 2.0 * ymax * dymax,
                 EvKind::Cos(w) | EvKind::Sin(w) => w.abs(),
+                EvKind::SqrtUntil(_, _) => f64::INFINITY,
             }
     }
     pub fn describe(&self) -> String {
